@@ -108,7 +108,7 @@ Proof.
   apply amem_In. now apply H.
 Qed.
 
-Lemma init_in : In init_state (nth 0 m []).
+Lemma init_in : In (init_state md) (nth 0 m []).
 Proof.
   unfold check in Hcheck. apply andb_true_iff in Hcheck as [H _]. apply andb_true_iff in H as [_ H].
   now apply amem_In.
@@ -160,9 +160,9 @@ Proof.
   destruct ch, alts as [|x [|y l]]; simpl; intros H; inversion H; subst; auto.
 Qed.
 
-Lemma final_ok_state s : final_ok md s = true -> md = MGlobal /\ s = init_state.
+Lemma final_ok_state s : final_ok md s = true -> md <> MFunc /\ s = init_state md.
 Proof.
-  unfold final_ok. destruct md; try discriminate. intros H. split; auto. now apply astate_eqb_eq.
+  unfold final_ok. destruct md; try discriminate; intros H; split; try discriminate; now apply astate_eqb_eq.
 Qed.
 
 Lemma ret_site_in p s f lower :
@@ -189,9 +189,10 @@ Proof.
   unfold step.
   destruct (pc st =? length code) eqn:Hend.
   - (* program end *)
-    apply final_ok_state in Hc as [Hmd Hs]. rewrite Hmd.
-    unfold abs, init_state in Hs. injection Hs as H1 H2 H3.
-    destruct (frames st); try discriminate. rewrite H1, H2. simpl. exact I.
+    apply final_ok_state in Hc as [Hmd Hs].
+    unfold abs in Hs. injection Hs as H1 H2 H3.
+    destruct (frames st); try discriminate. rewrite H1, H2.
+    destruct md; try congruence; simpl; exact I.
   - apply Nat.eqb_neq in Hend.
     assert (Hlt : (length code <? pc st) = false) by (apply Nat.ltb_ge; lia).
     rewrite Hlt.
@@ -199,7 +200,7 @@ Proof.
     assert (Hthrow : forall fs, rets_ok fs ->
               (forall ps, In ps (handlers (map base fs)) -> In ps (handlers (a_ts (abs st)))) ->
               match do_throw fs with Next st' => Inv st' | Fault => False | _ => True end).
-    { intros fs Hrf Hsub. apply (do_throw_ok fs init_state); auto.
+    { intros fs Hrf Hsub. apply (do_throw_ok fs (init_state md)); auto.
       intros ps Hps. apply Hall. apply in_or_app; right. auto. }
     assert (Hthrow0 : match do_throw (frames st) with Next st' => Inv st' | Fault => False | _ => True end).
     { apply Hthrow; auto. }
@@ -273,10 +274,11 @@ Proof.
         unfold abs in Hs; simpl in Hs.
         destruct (segs st) as [|sg [|]]; try discriminate.
         destruct (frames st); simpl in Hs; try discriminate.
-        destruct ((sn sg =? 1) && sx sg); try discriminate. exact I.
+        destruct (sn sg) as [|[|n]]; simpl in *; try discriminate;
+          destruct (sx sg); simpl in *; try discriminate; exact I.
 Qed.
 
-Lemma entry_inv : Inv entry_state.
+Lemma entry_inv : Inv (entry_state md).
 Proof. split; simpl; auto. exact init_in. Qed.
 
 Theorem run_inv fuel : forall orc st, Inv st ->
@@ -296,51 +298,58 @@ End Sound.
 
 (* ---------- main theorems ---------- *)
 Theorem check_sound : forall code md m, check code md m = true ->
-  forall fuel orc st, entry_ok st -> stack_safe (vm_run fuel code md orc st).
+  forall fuel orc st, entry_ok md st -> stack_safe (vm_run fuel code md orc st).
 Proof.
   intros code md m Hc fuel orc st He. unfold entry_ok in He. subst st.
-  pose proof (run_inv code md m Hc fuel orc entry_state (entry_inv code md m Hc)) as H.
+  pose proof (run_inv code md m Hc fuel orc (entry_state md) (entry_inv code md m Hc)) as H.
   unfold stack_safe. intros Hf. rewrite Hf in H. exact H.
 Qed.
 
 Lemma verify_mode_check code md : verify_mode code md = true -> check code md (infer code md) = true.
-Proof. unfold verify_mode. intros H. now apply andb_true_iff in H as [H _]. Qed.
+Proof. unfold verify_mode. intros H. exact H. Qed.
 
 Theorem verify_sound : forall code, verify code = true ->
-  forall fuel orc st, entry_ok st -> stack_safe (vm_run fuel code MGlobal orc st).
+  forall fuel orc st, entry_ok MGlobal st -> stack_safe (vm_run fuel code MGlobal orc st).
 Proof. intros code H. apply (check_sound code MGlobal _ (verify_mode_check _ _ H)). Qed.
 
 Theorem verify_func_sound : forall code, verify_func code = true ->
-  forall fuel orc st, entry_ok st -> stack_safe (vm_run fuel code MFunc orc st).
+  forall fuel orc st, entry_ok MFunc st -> stack_safe (vm_run fuel code MFunc orc st).
 Proof. intros code H. apply (check_sound code MFunc _ (verify_mode_check _ _ H)). Qed.
+
+Theorem verify_init_sound : forall code, verify_init code = true ->
+  forall fuel orc st, entry_ok MInit st -> stack_safe (vm_run fuel code MInit orc st).
+Proof. intros code H. apply (check_sound code MInit _ (verify_mode_check _ _ H)). Qed.
 
 (* a run that has finished normally did so with the calling-convention shape: by construction of
    [step], [Done] is only produced (a) at pc = length code in global code with no locals, an empty
    operand stack and an empty try stack, or (b) by [ret] with exactly one operand and an empty try
    stack.  Stated as lemmas about [step]: *)
-Lemma done_global_shape code ch st :
-  step code MGlobal ch st = Done ->
-  pc st = length code /\ loc st = 0 /\ segs st = [mkseg 0 true] /\ frames st = [].
+Lemma done_end_shape code md ch st :
+  md <> MFunc ->
+  step code md ch st = Done ->
+  pc st = length code /\ loc st = 0 /\ segs st = a_segs (init_state md) /\ frames st = [].
 Proof.
-  unfold step. destruct (pc st =? length code) eqn:E.
-  - apply Nat.eqb_eq in E. destruct (frames st); try discriminate.
-    destruct (loc st =? 0) eqn:E2; simpl; try discriminate.
-    destruct (list_eqb seg_eqb (segs st) [mkseg 0 true]) eqn:E3; try discriminate.
-    intros _. apply Nat.eqb_eq in E2. apply (list_eqb_eq _ seg_eqb_eq) in E3. auto.
+  intros Hmd. unfold step. destruct (pc st =? length code) eqn:E.
+  - apply Nat.eqb_eq in E. destruct md; try congruence;
+      (destruct (frames st); try discriminate;
+       destruct (loc st =? 0) eqn:E2; simpl; try discriminate;
+       match goal with |- context [list_eqb seg_eqb (segs st) ?x] => destruct (list_eqb seg_eqb (segs st) x) eqn:E3 end;
+       try discriminate; intros _; apply Nat.eqb_eq in E2; apply (list_eqb_eq _ seg_eqb_eq) in E3; auto).
   - destruct (length code <? pc st); try discriminate.
     destruct (is_core (nth (pc st) code SUnknown)).
     + destruct (core _ _ _ _); try discriminate.
       destruct (pick ch l) as [[[? ?] ?]|]; try discriminate.
       unfold do_throw. destruct (unwind _); discriminate.
-    + destruct (nth (pc st) code SUnknown); try discriminate;
+    + destruct md; try congruence;
+      (destruct (nth (pc st) code SUnknown); try discriminate;
         repeat match goal with
                | |- context [match ?x with _ => _ end] => destruct x; try discriminate
-               end; unfold do_throw; try (destruct (unwind _); discriminate).
+               end; unfold do_throw; try (destruct (unwind _); discriminate)).
 Qed.
 
 Lemma done_func_shape code ch st :
   step code MFunc ch st = Done ->
-  nth (pc st) code SUnknown = SRet /\ segs st = [mkseg 1 true] /\ frames st = [].
+  nth (pc st) code SUnknown = SRet /\ (exists n, 2 <= n /\ segs st = [mkseg n true]) /\ frames st = [].
 Proof.
   unfold step. destruct (pc st =? length code) eqn:E.
   - destruct (frames st); discriminate.
@@ -355,7 +364,43 @@ Proof.
                end; unfold do_throw; try (destruct (unwind _); discriminate); fail).
       destruct (segs st) as [|sg [|]]; try discriminate.
       destruct (frames st); try discriminate.
-      destruct (sn sg =? 1) eqn:E1; simpl; try discriminate.
+      destruct (2 <=? sn sg) eqn:E1; simpl; try discriminate.
       destruct (sx sg) eqn:E2; try discriminate.
-      intros _. apply Nat.eqb_eq in E1. destruct sg; simpl in *; subst. auto.
+      intros _. apply Nat.leb_le in E1. destruct sg; simpl in *; subst. repeat split; auto. eauto.
 Qed.
+
+(* ---------- non-vacuity: concrete code the verifier accepts / rejects ---------- *)
+(* try { push; pop } catch (e) { pop } finally { push; pop }  followed by a spread call f(...a, b) *)
+Definition ex_code : list shape :=
+  [STry 4 7; SNorm 0 1; SNorm 1 0; SJump 4; SNorm 1 0; SNorm 0 0; SNorm 0 0; SEnterFinally;
+   SNorm 0 1; SNorm 1 0; SLeaveFinally;
+   SStartVar; SNorm 0 2; SNorm 0 1; SSpread; SNorm 0 1; SCallVar 2; SEndVar; SNorm 1 0].
+
+Example ex_code_verifies : verify ex_code = true.
+Proof. vm_compute. reflexivity. Qed.
+
+(* the run that takes no exception reaches the end of the code normally *)
+Example ex_code_runs : vm_run 40 ex_code MGlobal (fun _ => CNext) (entry_state MGlobal) = Done.
+Proof. vm_compute. reflexivity. Qed.
+
+(* a run in which the second instruction throws goes through the catch and the finally block *)
+Example ex_code_runs_exc :
+  vm_run 40 ex_code MGlobal (fun k => if k =? 38 then CThrow else CNext) (entry_state MGlobal) = Done.
+Proof. vm_compute. reflexivity. Qed.
+
+(* F18: "(false && x), 1;" compiles to  loadVal false; loadVal 1; pop : one value is left on the stack *)
+Definition f18_code : list shape := [SNorm 0 1; SNorm 0 1; SNorm 1 0].
+Example f18_rejected : verify f18_code = false.
+Proof. vm_compute. reflexivity. Qed.
+Example f18_faults : vm_run 10 f18_code MGlobal (fun _ => CNext) (entry_state MGlobal) = Fault.
+Proof. vm_compute. reflexivity. Qed.
+
+(* a function body: enter with 2 locals, compute, return exactly one value above `this` *)
+Example func_verifies : verify_func [SEnter 0 2; SNorm 0 1; SNorm 1 1; SRet] = true.
+Proof. vm_compute. reflexivity. Qed.
+Example func_leak_rejected : verify_func [SEnter 0 2; SNorm 0 1; SCond (-1) 1 1 1; SNorm 0 1; SRet] = false.
+Proof. vm_compute. reflexivity. Qed.
+Example underflow_rejected : verify [SNorm 0 1; SNorm 2 1; SNorm 1 0] = false.
+Proof. vm_compute. reflexivity. Qed.
+Example loop_leak_rejected : verify [SNorm 0 1; SCond 3 1 0 0; SNorm 0 1; SJump (-3)] = false.
+Proof. vm_compute. reflexivity. Qed.
